@@ -346,3 +346,5 @@ def run(ctx):
     ctx.replay(cases, timeout=2400)
     if ctx.counters.get("optimized_queries", 0) == 0:
         raise vlib.Infra("no query took the optimized path")
+    from checks import ext_iter   # EXT: the priority queue of the distance queries (spec/Iterators.tla)
+    ext_iter.run_c08(ctx)
